@@ -164,7 +164,7 @@ def run(tier, seed):
             lookups_compared_after_every_call=["find x all bound/unbound patterns", "triples_with_subject/predicate/object", "subjects/predicates/objects",
                                                "len", "stats", "contains for every triple", "triples", "find_with_pending per transaction"])
     rep.assumptions += ["terms: IRIs (one shared between subject and object position), blank nodes, plain / language-tagged / typed literals with equal lexical forms",
-                        "SPARQL: terms are IRIs, plain strings and small integers under a fixed predicate schema (object kind per predicate) so that every comparison is between like kinds; blank nodes, language tags, typed literals other than integers, ORDER BY, property paths, sub-queries, GRAPH, aggregates other than COUNT(*), CONSTRUCT / ASK / DESCRIBE are not generated",
+                        "SPARQL: terms are IRIs, plain strings and small integers under a fixed predicate schema (object kind per predicate) so that every comparison is between like kinds; blank nodes, language tags, typed literals other than integers, ORDER BY on mixed kinds, property paths, sub-queries, GRAPH, aggregates other than COUNT(*), CONSTRUCT / ASK / DESCRIBE are not generated",
                         "every generated SPARQL query must agree with SparqlSem.tla; the static classes J (join over a possibly unbound variable) and F (FILTER in OPTIONAL over an outer variable) are counted in the evidence because both were broken before the fixes a72e1ed / 2756498 / a4f1474"]
     return rep.finish()
 
